@@ -155,41 +155,32 @@ func RegexpQuote(b io.Writer, str string) {
 }
 
 func PuppetQuote(w io.Writer, str string) {
-	r := NewStringReader(str)
-	b, ok := w.(*bytes.Buffer)
-	if !ok {
-		b = bytes.NewBufferString(``)
-		defer func() {
-			WriteString(w, b.String())
-		}()
-	}
-	begin := b.Len()
-
-	WriteByte(b, '\'')
-	for c := r.Next(); c != 0; c = r.Next() {
+	// The string is ranged over, not read with a StringReader: the reader returns 0 at the end of its input,
+	// which made a NUL character end the output.
+	for _, c := range str {
 		if c < 0x20 {
-			r.Rewind()
-			b.Truncate(begin)
-			puppetDoubleQuote(r, b)
+			puppetDoubleQuote(str, w)
 			return
 		}
-
+	}
+	WriteByte(w, '\'')
+	for _, c := range str {
 		switch c {
 		case '\'':
-			WriteString(b, `\'`)
+			WriteString(w, `\'`)
 		case '\\':
 			// every backslash is escaped: the parser reads \\ as one backslash and rejects an unknown escape
-			WriteString(b, `\\`)
+			WriteString(w, `\\`)
 		default:
-			WriteRune(b, c)
+			WriteRune(w, c)
 		}
 	}
-	WriteByte(b, '\'')
+	WriteByte(w, '\'')
 }
 
-func puppetDoubleQuote(r *StringReader, b io.Writer) {
+func puppetDoubleQuote(str string, b io.Writer) {
 	WriteByte(b, '"')
-	for c := r.Next(); c != 0; c = r.Next() {
+	for _, c := range str {
 		switch c {
 		case '\t':
 			WriteString(b, `\t`)
